@@ -187,7 +187,9 @@ pub fn run_pipeline(
 
     let mut fds_capture_stdout = None;
     let mut fds_capture_stderr = None;
-    if capture {
+    // a single builtin runs in the shell itself and hands its output back
+    // directly: it needs no capture pipes
+    if capture && !cl.is_single_and_builtin() {
         match pipe() {
             Ok(fds) => fds_capture_stdout = Some(fds),
             Err(e) => {
